@@ -484,10 +484,11 @@ type Memory struct {
 	written map[int]bool // objects stored to on this path
 	read    map[int]bool // objects loaded from on this path
 	shared  map[int]bool // objects whose address escaped into untracked memory (Stage B)
+	multi   map[int]bool // allocation sites standing for several live objects: weak updates only
 }
 
 func newMemory(base map[int]Value) *Memory {
-	return &Memory{base: base, cells: map[int]Value{}, written: map[int]bool{}, read: map[int]bool{}, shared: map[int]bool{}}
+	return &Memory{base: base, cells: map[int]Value{}, written: map[int]bool{}, read: map[int]bool{}, shared: map[int]bool{}, multi: map[int]bool{}}
 }
 
 func (m *Memory) clone() *Memory {
@@ -507,7 +508,11 @@ func (m *Memory) clone() *Memory {
 	for k := range m.read {
 		rd[k] = true
 	}
-	return &Memory{base: m.base, cells: c, written: w, read: rd, shared: sh}
+	mu := make(map[int]bool, len(m.multi))
+	for k := range m.multi {
+		mu[k] = true
+	}
+	return &Memory{base: m.base, cells: c, written: w, read: rd, shared: sh, multi: mu}
 }
 
 func (m *Memory) root(obj int) (Value, bool) {
@@ -568,7 +573,7 @@ func (m *Memory) store(p *Ptr, v Value) bool {
 	if !ok {
 		return false
 	}
-	nr, ok := storePath(r, p.Path, v, false)
+	nr, ok := storePath(r, p.Path, v, m.multi[p.Obj])
 	if !ok {
 		return false
 	}
@@ -637,6 +642,12 @@ func joinMemory(a, b *Memory) *Memory {
 	}
 	for k := range b.read {
 		out.read[k] = true
+	}
+	for k := range a.multi {
+		out.multi[k] = true
+	}
+	for k := range b.multi {
+		out.multi[k] = true
 	}
 	for k, v := range a.cells {
 		if w, ok := b.root(k); ok {
